@@ -1260,6 +1260,13 @@ def _hands_error_on(body, pat):
     if b.get('k') == 'Ret':
         b = b.get('e') or {}
     b = H.peel(b)
+    if b.get('k') == 'MethodCall' and b.get('name') == 'fail' and not b.get('args') and 'Snafu' in (H.peel(b['recv']).get('ty') or H.term(b['recv'])):
+        # a snafu selector's `.fail()` is `Err(<that error>)`
+        sel = H.peel(b['recv'])
+        binds = [x['id'] for x in H.pat_bindings(pat)]
+        if not binds:
+            return not any(n.get('k') in ('Call', 'MethodCall') and not (n.get('k') == 'Call' and n['f'].get('dk', '').startswith('Ctor')) for n in H.walk(sel))
+        return len(binds) == 1 and any(n.get('k') == 'Local' and n['id'] == binds[0] for n in H.walk(sel))
     if b.get('k') != 'Call' or (b['f'].get('path') or '').split('::')[-1] != 'Err' or len(b['args']) != 1:
         return False
     binds = [x['id'] for x in H.pat_bindings(pat)]
@@ -1283,6 +1290,14 @@ def is_propagate_match(node):
     if {'Ok'} not in ws or {'Err'} not in ws:
         return False
     ea = node['arms'][ws.index({'Err'})]
+    oa = node['arms'][ws.index({'Ok'})]
+    ob = H.peel(oa['body']) if isinstance(oa['body'], dict) else {}
+    if oa['body'].get('ty') == '!' or ob.get('ty') == '!' or (ob.get('k') == 'MacroCall' and ob.get('name') in ('unreachable', 'panic', 'unimplemented', 'todo')):
+        return False  # an Ok arm that never yields a value is a real branch, not the success side of `?`
+    if ob.get('k') == 'Block' and ob.get('expr') is not None and not ob.get('stmts'):
+        ob2 = H.peel(ob['expr'])
+        if ob2.get('ty') == '!' or (ob2.get('k') == 'MacroCall' and ob2.get('name') in ('unreachable', 'panic', 'unimplemented', 'todo')):
+            return False
     return _hands_error_on(ea['body'], ea['pat'])
 
 
